@@ -300,6 +300,6 @@ def machine(seed, n, record):
 
 def tests(tier):
     return [
-        TestSpec("add-schema-history", gen_case, body, {"quick": 500, "thorough": 50000}, tape=4096, fuzz={"thorough": 15000}),
+        TestSpec("add-schema-history", gen_case, body, {"quick": 500, "thorough": 50000}, tape=4096, fuzz={"thorough": 5000}),
         TestSpec("add-schema-machine", gen_case, body, {"quick": 100, "thorough": 8000}, tape=4096, machine=machine),
     ]
